@@ -107,6 +107,13 @@ CLAIMED["C14"] = ("TLC enumerates every abstract ELF (presence/readability of ea
             "Trusted: TLC, the harness's ELF builder and independent reader; random-bytes part is fuzzing judged trivially by TLC; little-endian only.",
             "TLA+ model checking (TLC) + model-generated replay + structure-aware corruption + trace validation", "DESIGN.md 4/C14")
 
+CLAIMED["C02"] = ("TLC checks totality, no-open-under-/dev and termination of the link_map walk on a step model of a dump over nine input dimensions (all inputs within "
+            "two deviations of a benign base); each abstract input is concretised (crash registers, direct auxv, a synthetic linker chain in the target's memory "
+            "incl. cyclic/dangling lists, mapped files with hostile names and contents under inotify) and dumped in a watchdogged worker; the public parsing "
+            "entry points run on generated inputs; TLC judges every outcome and checks the linker-data soft failure the model predicts.",
+            "Trusted: TLC, the watchdog/worker isolation, inotify, the concretisation of classes by the scenario builder; dev profile (overflow = panic).",
+            "TLA+ model checking (TLC, safety + liveness) + model-generated scenarios + trace validation", "DESIGN.md 4/C02")
+
 NOT_YET = {
 }
 
